@@ -111,7 +111,7 @@ def scenario(run, e4, sc):
     settings = {"graceful_timeout": 3, "timeout": 3 if "timeout" in sc["events"] else 10}
     if wc == "gthread":
         settings["threads"] = 2
-    srv = e4.Server("c17", worker_class=wc, workers=2, settings=settings, conf_extra=MAXREQ_CONF if sc.get("max_requests") else "")
+    srv = e4.Server("c17", worker_class=wc, workers=2, bind="unix", settings=settings, conf_extra=MAXREQ_CONF if sc.get("max_requests") else "")
     pidfile = os.path.join(srv.dir, "master.pid")
     srv.write_conf(pidfile=pidfile)
     other = None
@@ -163,21 +163,25 @@ def scenario(run, e4, sc):
                     run.count("live_worker_left_through_python")
             elif ev == "second_instance":
                 # another master is started on the same pid file: it has to give up, and must not touch the file
-                other = e4.Server("c17b", worker_class=wc, workers=1, settings={"graceful_timeout": 2, "timeout": 10})
+                other = e4.Server("c17b", worker_class=wc, workers=1, bind="unix", settings={"graceful_timeout": 2, "timeout": 10})
                 other.write_conf(pidfile=pidfile)
                 other.start()
-                st = watch.wait(lambda: other.wait_exit(other.master_pid, 0.05), 15)
-                ok = st is not None
-                if st is None:
+                # on_starting runs right after Arbiter.start() has created the pid file: seeing it means create() returned
+                st = watch.wait(lambda: other.wait_exit(other.master_pid, 0.05) or
+                                [e for e in other.events() if e["kind"] in ("on_starting", "when_ready")], 20)
+                ok = isinstance(st, tuple)
+                if isinstance(st, list):
                     watch.v.append(("live-second-instance-started-on-live-pidfile",
-                                    "a second master (pid %d) is running on the pid file of live master %d; file: %r" % (
+                                    "a second master (pid %d) got past its pid file check while the file named live master %d; file now: %r" % (
                                         other.master_pid, srv.master_pid, read_file(pidfile))))
-                else:
+                elif ok:
                     run.count("live_second_instance_refused")
                 other.cleanup()
                 other = None
                 if watch.v:
                     return watch.v, None, info
+                if not ok:
+                    return watch.v, "the second instance neither exited nor started within 20 s", info
             else:
                 raise ValueError(ev)
             info["events"].append((ev, bool(ok), srv.worker_pids()))
@@ -219,7 +223,7 @@ def takeover(run, e4, sc):
     wc = sc["class"]
     info = {}
     v = []
-    srv = e4.Server("c17", worker_class=wc, workers=1, settings={"graceful_timeout": 2, "timeout": 10})
+    srv = e4.Server("c17", worker_class=wc, workers=1, bind="unix", settings={"graceful_timeout": 2, "timeout": 10})
     pidfile = os.path.join(srv.dir, "master.pid")
     srv.write_conf(pidfile=pidfile)
     nxt = None
@@ -244,11 +248,12 @@ def takeover(run, e4, sc):
             pass
         except OSError:
             return [], "pid %d answers again (reused)" % first, info
-        nxt = e4.Server("c17n", worker_class=wc, workers=1, settings={"graceful_timeout": 2, "timeout": 10})
+        nxt = e4.Server("c17n", worker_class=wc, workers=1, bind="unix", settings={"graceful_timeout": 2, "timeout": 10})
         nxt.write_conf(pidfile=pidfile)
         nxt.start()
         if not nxt.wait_workers(1, 25):
-            if not e4.alive(nxt.master_pid):
+            if not e4.alive(nxt.master_pid) and not [e for e in nxt.events() if e["kind"] == "on_starting"]:
+                # it gave up before on_starting, i.e. in Arbiter.start() where the pid file is created
                 v.append(("live-stale-pidfile-not-taken-over", "the pid file named dead master %d; the next start exited: %s" % (
                     first, (nxt.stderr() or nxt.error_log())[-300:])))
                 return v, None, info
